@@ -31,6 +31,11 @@ def newtype(name: str, module: str, supertype: V) -> R:
     return R("newtype", __name__=K(name), __qualname__=K(name), __module__=K(module), __supertype__=supertype)
 
 
+def uniontype(*args: V) -> R:
+    """`X | Y` written in the source (PEP 604): an instance of types.UnionType - not a class, not a typing generic"""
+    return R("uniontype", __args__=K(tuple(args)), __module__=K("types"))
+
+
 class AnnoScenario:
     def __init__(self, repo: Repo, module: str, func: str, replace_policy: Optional[Dict[str, str]] = None) -> None:
         self.repo = repo
@@ -88,6 +93,9 @@ class AnnoScenario:
             if attr in ("__args__", "__qualname__", "__name__", "__supertype__", "__forward_arg__"):
                 st.pending = st.pending or "AttributeError"
                 return U("no " + attr)
+        if isinstance(obj, R) and obj.kind == "uniontype" and attr in ("__origin__", "__qualname__", "__name__", "__supertype__", "__forward_arg__", "__annotations__", "__total__"):
+            st.pending = st.pending or "AttributeError"
+            return U("no " + attr)
         if isinstance(obj, R) and obj.kind in ("cls", "any", "td", "forwardref", "newtype") and attr in ("__args__", "__origin__", "__supertype__", "__forward_arg__", "__annotations__", "__total__") and attr not in obj.fields:
             st.pending = st.pending or "AttributeError"
             return U("no " + attr)
@@ -106,7 +114,9 @@ class AnnoScenario:
             if name == "Union":
                 flat: List[V] = []
                 for a in args:
-                    sub = a.fields["args"].v if isinstance(a, R) and a.kind == "generic" and a.fields["origin"] == K("Union") else (a,)
+                    # typing flattens nested Unions, and `X | Y` objects (types.UnionType) among the arguments
+                    sub = a.fields["args"].v if isinstance(a, R) and a.kind == "generic" and a.fields["origin"] == K("Union") else \
+                        (a.fields["__args__"].v if isinstance(a, R) and a.kind == "uniontype" else (a,))
                     for x in sub:
                         if x not in flat:
                             flat.append(x)
@@ -283,6 +293,8 @@ class AnnoScenario:
                 out |= kind == "typevar"
             elif nm.endswith("ForwardRef"):
                 out |= kind == "forwardref"
+            elif nm.endswith("types.UnionType") or nm == "UnionType":
+                out |= kind == "uniontype"
             else:
                 return None
         return K(out)
@@ -351,6 +363,13 @@ def eval_annotation(text: str, namespace: Dict[str, Any], nested: Callable[[Any,
             if name == "Tuple" and args == ((),):
                 return gen("Tuple")
             return gen(name, *args)
+        if isinstance(n, ast.BinOp) and isinstance(n.op, ast.BitOr):
+            flat: List[Any] = []
+            for side in (ev(n.left), ev(n.right)):
+                for x in (side.fields["__args__"].v if isinstance(side, R) and side.kind == "uniontype" else (side,)):
+                    if x not in flat:
+                        flat.append(x)
+            return flat[0] if len(flat) == 1 else uniontype(*flat)
         raise Unresolved(f"unsupported syntax {ast.unparse(n)}")
 
     return ev(node)
@@ -373,6 +392,20 @@ def equal_types(a: Any, b: Any) -> bool:
                 rest.remove(hit[0])
             return True
         return all(equal_types(x, y) for x, y in zip(xa, xb))
+    # `X | Y` and Union[X, Y] are the same type; a Union that contains `X | Y` is flattened (as typing does)
+    def _norm(t: Any) -> Any:
+        if isinstance(t, R) and t.kind == "uniontype":
+            t = gen("Union", *t.fields["__args__"].v)
+        if isinstance(t, R) and t.kind == "generic" and t.fields["origin"] == K("Union"):
+            flat: List[Any] = []
+            for x in t.fields["args"].v:
+                x = _norm(x)
+                for y in (x.fields["args"].v if isinstance(x, R) and x.kind == "generic" and x.fields["origin"] == K("Union") else (x,)):
+                    if y not in flat:
+                        flat.append(y)
+            return flat[0] if len(flat) == 1 else gen("Union", *flat)
+        return t
+    a, b = _norm(a), _norm(b)
     if isinstance(a, K) and isinstance(b, K) and isinstance(a.v, tuple) and isinstance(b.v, tuple):
         return len(a.v) == len(b.v) and all(equal_types(x, y) for x, y in zip(a.v, b.v))
     # a NAMED TypedDict class of the program (class Movie(TypedDict): ...) is a class like any other: module and qualified name
